@@ -218,10 +218,16 @@ impl RoutingThread {
                     .await;
             }
             Message::KeyListUpdate(key_list) => {
-                self.network
+                if let Err(e) = self
+                    .network
                     .handle_received_key_list(peer_index, key_list)
                     .await
-                    .unwrap();
+                {
+                    warn!(
+                        "failed handling key list from peer : {:?}. {:?}",
+                        peer_index, e
+                    );
+                }
             }
             Message::Block(_) => {
                 // blocks are fetched over http, never pushed as messages. ignore the message
